@@ -22,6 +22,7 @@ to account for:
     may also differ.
 """
 
+from tangelo.linq import Gate
 from tangelo.linq.helpers import pauli_of_to_string
 
 
@@ -178,9 +179,9 @@ def translate_c_to_sympy(source_circuit):
 
     # Map the gate information properly.
     for gate in reversed(source_circuit._gates):
-        # If the parameter is a string, we use it as a variable.
+        # If the parameter is a string, we use it as a variable (on a copy: the source circuit is left untouched).
         if gate.parameter and isinstance(gate.parameter, str):
-            gate.parameter = symbols(gate.parameter, real=True)
+            gate = Gate(gate.name, gate.target, gate.control, symbols(gate.parameter, real=True), gate.is_variational)
 
         if gate.name in {"H", "X", "Y", "Z"}:
             target_circuit *= GATE_SYMPY[gate.name](gate.target[0])
